@@ -2404,3 +2404,317 @@ Proof.
   unfold with_slash. destruct (ends_with_sep s) eqn:E; [exact E|].
   unfold ends_with_sep. rewrite rev_app_distr. reflexivity.
 Qed.
+
+(* ------------------------------------------------------------------------------------------ *)
+(* The primitives with the trigger bodies found in the repository                              *)
+(* ------------------------------------------------------------------------------------------ *)
+
+Definition flagcol_eqb (a b : flagcol) : bool :=
+  match a, b with FSafe, FSafe | FAfter, FAfter | FReady, FReady => true | _, _ => false end.
+Definition ttarget_eqb (a b : ttarget) : bool :=
+  match a, b with
+  | TSelf, TSelf | TSource, TSource | TSink, TSink | TConsumersOfSelf, TConsumersOfSelf
+  | TSinkOfDep, TSinkOfDep | TProducersOfSource, TProducersOfSource => true
+  | _, _ => false
+  end.
+Definition has_stmt (c : flagcol) (t : ttarget) (l : list (flagcol * ttarget)) : bool :=
+  existsb (fun ct => flagcol_eqb (fst ct) c && ttarget_eqb (snd ct) t) l.
+Lemma has_stmt_In c t l : has_stmt c t l = true -> In (c, t) l.
+Proof.
+  unfold has_stmt. intros H. apply existsb_exists in H. destruct H as [[c' t'] [Hin H]].
+  apply andb_true_iff in H. destruct H as [H1 H2]. cbn [fst snd] in *.
+  destruct c, c'; try discriminate; destruct t, t'; try discriminate; exact Hin.
+Qed.
+
+Lemma flags_producers_In trg : flags_producers trg = true -> In (FAfter, TProducersOfSource) trg.
+Proof.
+  unfold flags_producers. intros H. apply existsb_exists in H. destruct H as [[c t] [Hin H]].
+  destruct c; try discriminate. destruct t; try discriminate. exact Hin.
+Qed.
+
+Theorem set_step_state_sound_repo g k st df : FlagInv g -> FlagInv (set_step_state g k st df).
+Proof. apply set_step_state_sound. apply has_stmt_In. vm_compute. reflexivity. Qed.
+
+Theorem ins_dep_sound_repo g d : WF g -> FlagInv g -> FlagInv (ins_dep g d).
+Proof.
+  intros Hwf [HFs [HFn HFr]]. unfold ins_dep. split; [|split].
+  - apply ins_dep_safe_sound. exact HFs.
+  - apply ins_dep_need_sound; try assumption; apply has_stmt_In; vm_compute; reflexivity.
+  - apply ins_dep_ready_sound; try assumption; apply has_stmt_In; vm_compute; reflexivity.
+Qed.
+
+Theorem del_dep_sound_repo g d :
+  WF g -> FlagInv g ->
+  (flags_producers trg_dep_del = true \/
+   (forall sy, find_step g (d_snk d) = Some sy -> s_detached sy = true)) ->
+  FlagInv (del_dep g d).
+Proof.
+  intros Hwf [HFs [HFn HFr]] Hp. unfold del_dep. split; [|split].
+  - apply del_dep_safe_sound. exact HFs.
+  - apply del_dep_need_sound; try assumption.
+    + apply has_stmt_In; vm_compute; reflexivity.
+    + destruct Hp as [Hp|Hp]; [left; apply flags_producers_In; exact Hp | right; exact Hp].
+  - apply del_dep_ready_sound; try assumption; apply has_stmt_In; vm_compute; reflexivity.
+Qed.
+
+Theorem set_file_state_sound_repo g k st h :
+  FlagInv_safe g /\ FlagInv_ready g ->
+  FlagInv_safe (set_file_state g k st h) /\ FlagInv_ready (set_file_state g k st h).
+Proof.
+  intros [HFs HFr]. split.
+  - apply set_file_state_safe_sound. exact HFs.
+  - apply set_file_state_ready_sound; [apply has_stmt_In; vm_compute; reflexivity | exact HFr].
+Qed.
+
+(* ------------------------------------------------------------------------------------------ *)
+(* C11: finalize.revert_optional_steps                                                        *)
+(* ------------------------------------------------------------------------------------------ *)
+
+Lemma fold_inv {A B} (f : A -> B -> A) (P : A -> Prop) l : forall a,
+  P a -> (forall a b, P a -> P (f a b)) -> P (fold_left f l a).
+Proof. induction l as [|x l IH]; intros a Ha Hs; [exact Ha|]. cbn. apply IH; auto. Qed.
+
+Lemma fold_inv_after {A B} (f : A -> B -> A) (P : A -> Prop) l x : forall a,
+  In x l -> (forall a b, P a -> P (f a b)) -> (forall a, P (f a x)) -> P (fold_left f l a).
+Proof.
+  induction l as [|y l IH]; intros a Hin Hs Hx; [destruct Hin|].
+  cbn. destruct Hin as [->|Hin]; [apply fold_inv; auto | apply IH; auto].
+Qed.
+
+(* rows keep key, cached need and attachment; the other tables are untouched or only files change *)
+Definition rows_kept (g g' : graph) : Prop :=
+  exists H, g_steps g' = map H (g_steps g) /\
+            forall s, s_key (H s) = s_key s /\ s_ineed (H s) = s_ineed s /\ s_detached (H s) = s_detached s.
+
+Lemma rows_kept_refl g : rows_kept g g.
+Proof. exists (fun s => s). split; [symmetry; apply map_id | auto]. Qed.
+
+Lemma rows_kept_trans g g1 g2 : rows_kept g g1 -> rows_kept g1 g2 -> rows_kept g g2.
+Proof.
+  intros [H1 [E1 P1]] [H2 [E2 P2]]. exists (fun s => H2 (H1 s)). split.
+  - rewrite E2, E1, map_map. reflexivity.
+  - intros s. destruct (P1 s) as [a [b c]]. destruct (P2 (H1 s)) as [a' [b' c']].
+    repeat split; congruence.
+Qed.
+
+Lemma set_step_state_rows g k st df : rows_kept g (set_step_state g k st df).
+Proof.
+  rewrite set_step_state_mapg.
+  exists (fun s => trigF (mapg (stateF k st df) g) trg_step_state k None (stateF k st df s)).
+  split; [reflexivity|]. intros s. cbv beta.
+  pose proof (trigF_only_flags (mapg (stateF k st df) g) trg_step_state k None) as O.
+  pose proof (of_keeps _ O) as K.
+  rewrite (k_key _ K), (of_ineed _ O), (k_detached _ K).
+  unfold stateF. destruct (s_key s =? k); repeat split; reflexivity.
+Qed.
+
+Lemma set_step_state_state g k st df r :
+  In r (g_steps (set_step_state g k st df)) ->
+  exists r0, In r0 (g_steps g) /\ s_key r = s_key r0 /\
+             s_state r = (if s_key r0 =? k then st else s_state r0).
+Proof.
+  rewrite set_step_state_mapg. unfold mapg. cbn [g_steps with_steps]. intros Hin.
+  apply in_map_iff in Hin. destruct Hin as [r0 [<- Hin]]. exists r0. split; [exact Hin|].
+  pose proof (trigF_only_flags (mapg (stateF k st df) g) trg_step_state k None) as O.
+  pose proof (of_keeps _ O) as K. rewrite (k_key _ K), (k_state _ K).
+  unfold stateF. destruct (s_key r0 =? k); [|split; reflexivity].
+  split; [reflexivity|]. apply apply_state_fields.
+Qed.
+
+Lemma set_file_state_steps g k st h :
+  exists F, only_flags F /\ g_steps (set_file_state g k st h) = map F (g_steps g).
+Proof.
+  unfold set_file_state. destruct (find_file g k).
+  - destruct (negb trg_file_state_upd_on_change_only || negb (f_state f =? st)).
+    + rewrite run_trigger_mapg. eexists. split; [apply trigF_only_flags | reflexivity].
+    + exists (fun s => s). split; [apply only_flags_id | symmetry; apply map_id].
+  - exists (fun s => s). split; [apply only_flags_id | symmetry; apply map_id].
+Qed.
+
+Lemma set_file_state_files g k st h f' :
+  In f' (g_files (set_file_state g k st h)) ->
+  exists f0, In f0 (g_files g) /\ f_key f' = f_key f0 /\
+    ((f_key f0 = k /\ f_state f' = st /\ f_hash f' = h) \/ (f_key f0 <> k /\ f' = f0)).
+Proof.
+  unfold set_file_state. destruct (find_file g k) as [fk|] eqn:E.
+  - assert (Hfiles : forall g', g_files g' = map (fun f => if f_key f =? k then set_fstate f st h else f) (g_files g) ->
+              In f' (g_files g') -> exists f0, In f0 (g_files g) /\ f_key f' = f_key f0 /\
+                ((f_key f0 = k /\ f_state f' = st /\ f_hash f' = h) \/ (f_key f0 <> k /\ f' = f0))).
+    { intros g' Eg Hin. rewrite Eg in Hin. apply in_map_iff in Hin. destruct Hin as [f0 [<- Hin]].
+      exists f0. split; [exact Hin|]. destruct (f_key f0 =? k) eqn:Ek.
+      - apply N.eqb_eq in Ek. split; [reflexivity|]. left. repeat split; assumption.
+      - apply N.eqb_neq in Ek. split; [reflexivity|]. right. split; [exact Ek | reflexivity]. }
+    destruct (negb trg_file_state_upd_on_change_only || negb (f_state fk =? st)).
+    + rewrite run_trigger_mapg. apply Hfiles. reflexivity.
+    + apply Hfiles. reflexivity.
+  - intros Hin. exists f'. split; [exact Hin|]. split; [reflexivity|]. right. split; [|reflexivity].
+    intros Ek. unfold find_file in E. eapply find_none in E; [|exact Hin]. cbn in E.
+    rewrite Ek, N.eqb_refl in E. discriminate.
+Qed.
+
+Definition revert_stepfn (opt : list N) (acc : graph) (s : step) : graph :=
+  if mem_N (s_key s) opt && negb (s_state s =? revert_step_state)
+  then set_step_state acc (s_key s) revert_step_state (s_deferred s) else acc.
+Definition revert_filefn (acc : graph) (kb : N * bool) : graph :=
+  if snd kb then set_file_state acc (fst kb) revert_file_state false else acc.
+
+Lemma revert_optional_unfold g :
+  revert_optional g =
+  (fold_left revert_filefn (revert_queue g) (fold_left (revert_stepfn (optional_keys g)) (g_steps g) g),
+   revert_queue g).
+Proof. reflexivity. Qed.
+
+Definition pending_at (k : N) (acc : graph) : Prop :=
+  forall r, In r (g_steps acc) -> s_key r = k -> s_state r = revert_step_state.
+
+Lemma pending_at_step opt k acc s : pending_at k acc -> pending_at k (revert_stepfn opt acc s).
+Proof.
+  intros HP. unfold revert_stepfn. destruct (mem_N (s_key s) opt && negb (s_state s =? revert_step_state)); [|exact HP].
+  intros r Hin Hk. destruct (set_step_state_state _ _ _ _ r Hin) as [r0 [Hin0 [Ek Es]]].
+  rewrite Es. destruct (s_key r0 =? s_key s); [reflexivity|]. apply HP; [exact Hin0 | congruence].
+Qed.
+
+Lemma pending_at_file k acc kb : pending_at k acc -> pending_at k (revert_filefn acc kb).
+Proof.
+  intros HP. unfold revert_filefn. destruct (snd kb); [|exact HP].
+  destruct (set_file_state_steps acc (fst kb) revert_file_state false) as [F [O E]].
+  intros r Hin Hk. rewrite E in Hin. apply in_map_iff in Hin. destruct Hin as [r0 [<- Hin]].
+  pose proof (of_keeps F O) as K. rewrite (k_state F K). apply HP; [exact Hin|].
+  rewrite <- Hk. symmetry. apply (k_key F K).
+Qed.
+
+Lemma rows_kept_stepfn opt acc s : rows_kept acc (revert_stepfn opt acc s).
+Proof.
+  unfold revert_stepfn. destruct (mem_N (s_key s) opt && negb (s_state s =? revert_step_state));
+    [apply set_step_state_rows | apply rows_kept_refl].
+Qed.
+Lemma rows_kept_filefn acc kb : rows_kept acc (revert_filefn acc kb).
+Proof.
+  unfold revert_filefn. destruct (snd kb); [|apply rows_kept_refl].
+  destruct (set_file_state_steps acc (fst kb) revert_file_state false) as [F [O E]].
+  exists F. split; [exact E|]. intros s. pose proof (of_keeps F O) as K.
+  repeat split; [apply K | apply O | apply K].
+Qed.
+
+Definition planned_at (k : N) (acc : graph) : Prop :=
+  forall f', In f' (g_files acc) -> f_key f' = k -> f_state f' = revert_file_state /\ f_hash f' = false.
+
+Lemma planned_at_file k acc kb : planned_at k acc -> planned_at k (revert_filefn acc kb).
+Proof.
+  intros HP. unfold revert_filefn. destruct (snd kb); [|exact HP].
+  intros f' Hin Hk. destruct (set_file_state_files _ _ _ _ f' Hin) as [f0 [Hin0 [Ek [[_ [Es Eh]]|[_ ->]]]]].
+  - split; assumption.
+  - apply HP; assumption.
+Qed.
+
+Lemma planned_after k acc : planned_at k (revert_filefn acc (k, true)).
+Proof.
+  unfold revert_filefn. cbn [snd fst]. intros f' Hin Hk.
+  destruct (set_file_state_files _ _ _ _ f' Hin) as [f0 [Hin0 [Ek [[_ [Es Eh]]|[Hne _]]]]].
+  - split; assumption.
+  - congruence.
+Qed.
+
+Theorem revert_optional_resets_gen g : WF g ->
+  let g2 := fst (revert_optional g) in
+  let q := snd (revert_optional g) in
+  rows_kept g g2 /\
+  (forall r, In r (g_steps g2) -> s_detached r = false -> s_ineed r = revert_need ->
+             s_state r = revert_step_state) /\
+  (forall f, In f (g_files g) -> queued_file g f = true ->
+             In (f_key f, negb (f_state f =? revert_keep_state)) q) /\
+  (forall f, In f (g_files g) -> queued_file g f = true -> f_state f <> revert_keep_state ->
+             forall f', In f' (g_files g2) -> f_key f' = f_key f ->
+                        f_state f' = revert_file_state /\ f_hash f' = false).
+Proof.
+  intros Hwf. rewrite revert_optional_unfold. cbn [fst snd].
+  set (opt := optional_keys g). set (q := revert_queue g).
+  set (g1 := fold_left (revert_stepfn opt) (g_steps g) g).
+  set (g2 := fold_left revert_filefn q g1).
+  assert (K1 : rows_kept g g1).
+  { unfold g1. apply (fold_inv (revert_stepfn opt) (rows_kept g)); [apply rows_kept_refl|].
+    intros a b Ha. eapply rows_kept_trans; [exact Ha | apply rows_kept_stepfn]. }
+  assert (K2 : rows_kept g g2).
+  { unfold g2. apply (fold_inv revert_filefn (rows_kept g)); [exact K1|].
+    intros a b Ha. eapply rows_kept_trans; [exact Ha | apply rows_kept_filefn]. }
+  split; [exact K2|]. split; [|split].
+  - intros r Hin Hd Hi. destruct K2 as [H [E P]]. rewrite E in Hin.
+    apply in_map_iff in Hin. destruct Hin as [s0 [<- Hin0]].
+    destruct (P s0) as [Pk [Pi Pd]]. rewrite Pi in Hi. rewrite Pd in Hd.
+    assert (Hopt : mem_N (s_key s0) opt = true).
+    { apply mem_N_In. unfold opt, optional_keys. apply in_map. apply filter_In. split; [exact Hin0|].
+      unfold optional_step. rewrite Hi, Hd, N.eqb_refl. reflexivity. }
+    assert (HP : pending_at (s_key s0) g2).
+    { unfold g2. apply (fold_inv revert_filefn (pending_at (s_key s0))); [|intros; apply pending_at_file; assumption].
+      unfold g1. destruct (s_state s0 =? revert_step_state) eqn:Est.
+      - apply (fold_inv (revert_stepfn opt) (pending_at (s_key s0))); [|intros; apply pending_at_step; assumption].
+        intros r Hr Hk. apply N.eqb_eq in Est. rewrite <- Est. f_equal.
+        assert (Hf := find_step_in g r Hwf Hr). rewrite Hk in Hf.
+        rewrite (find_step_in g s0 Hwf Hin0) in Hf. congruence.
+      - apply (fold_inv_after (revert_stepfn opt) (pending_at (s_key s0)) _ s0); [exact Hin0 | intros; apply pending_at_step; assumption|].
+        intros a. unfold revert_stepfn. rewrite Hopt, Est. cbn [negb andb].
+        intros r Hr Hk. destruct (set_step_state_state _ _ _ _ r Hr) as [r0 [_ [Ek Es]]].
+        rewrite Es. rewrite <- Ek, Hk, N.eqb_refl. reflexivity. }
+    apply HP; [|exact Pk]. rewrite E. apply in_map. exact Hin0.
+  - intros f Hin Hq. unfold q, revert_queue. apply in_map_iff. exists f. split; [reflexivity|].
+    apply filter_In. split; assumption.
+  - intros f Hin Hq Hnv f' Hin' Hk.
+    assert (Hqin : In (f_key f, true) q).
+    { unfold q, revert_queue. apply in_map_iff. exists f. split.
+      - f_equal. apply negb_true_iff. apply N.eqb_neq. exact Hnv.
+      - apply filter_In. split; assumption. }
+    assert (HP : planned_at (f_key f) g2).
+    { unfold g2. apply (fold_inv_after revert_filefn (planned_at (f_key f)) _ (f_key f, true)); [exact Hqin | |].
+      - intros; apply planned_at_file; assumption.
+      - intros a. apply planned_after. }
+    apply HP; assumption.
+Qed.
+
+Lemma queued_file_meaning g f : queued_file g f = true <->
+  mem_N (f_state f) revert_queue_states = true /\
+  exists d s, In d (g_deps g) /\ d_snk d = f_key f /\ d_src d = s_key s /\
+              In s (g_steps g) /\ s_ineed s = revert_need /\ s_detached s = false.
+Proof.
+  unfold queued_file. rewrite andb_true_iff, existsb_exists. split.
+  - intros [H1 [d [Hd H2]]]. split; [exact H1|]. apply andb_true_iff in H2. destruct H2 as [H2 H3].
+    apply N.eqb_eq in H2. apply mem_N_In in H3. unfold optional_keys in H3.
+    apply in_map_iff in H3. destruct H3 as [s [Es Hs]]. apply filter_In in Hs. destruct Hs as [Hs Ho].
+    unfold optional_step in Ho. apply andb_true_iff in Ho. destruct Ho as [Ho1 Ho2].
+    apply N.eqb_eq in Ho1. exists d, s. repeat split; auto.
+    destruct (s_detached s); [discriminate | reflexivity].
+  - intros [H1 [d [s [Hd [E1 [E2 [Hs [Hi Hdet]]]]]]]]. split; [exact H1|]. exists d. split; [exact Hd|].
+    apply andb_true_iff. split; [apply N.eqb_eq; exact E1|]. apply mem_N_In. unfold optional_keys.
+    rewrite E2. apply in_map. apply filter_In. split; [exact Hs|].
+    unfold optional_step. rewrite Hi, Hdet, N.eqb_refl. reflexivity.
+Qed.
+
+(* ------------------------------------------------------------------------------------------ *)
+(* C11: executed iff needed                                                                   *)
+(* ------------------------------------------------------------------------------------------ *)
+
+(* For a step that nothing else holds back (pending, attached, not deferred, safe, ready, resources
+   free), being dispatched is the same as being needed above the threshold. *)
+Theorem executed_iff_needed_gen g :
+  WF g -> Acyclic g -> FlagInv g -> HasHashInv g ->
+  (safe_merge = MergeDeepest \/ NoStaleLow g) ->
+  exists g', update_meta g = Some g' /\ AllCorrect g' /\
+    (forall s, In s (dispatch_set g') ->
+       ND_OPTIONAL < need_spec g' (s_key s) /\ g_threshold g' < need_spec g' (s_key s)) /\
+    (forall s, In s (g_steps g') ->
+       s_state s = ST_PENDING -> s_detached s = false -> s_deferred s = false ->
+       fst (safe_spec g' s) = true -> ready_spec g' (s_key s) = true -> res_unavailable g' s = false ->
+       (In s (dispatch_set g') <->
+        ND_OPTIONAL < need_spec g' (s_key s) /\ g_threshold g' < need_spec g' (s_key s))).
+Proof.
+  intros Hwf Hac HF HH Hpol.
+  destruct (dispatch_only_eligible_gen g Hwf Hac HF HH Hpol) as [g' [Hu [HA Hd]]].
+  exists g'. split; [exact Hu|]. split; [exact HA|]. split.
+  - intros s Hs. apply Hd in Hs. destruct Hs as [_ He].
+    apply eligible_spec_meaning in He. tauto.
+  - intros s Hin Hst Hdet Hdf Hsafe Hrdy Hres. rewrite Hd. split.
+    + intros [_ He]. apply eligible_spec_meaning in He. tauto.
+    + intros [H1 H2]. split; [exact Hin|].
+      unfold eligible_spec. rewrite dispatch_where_meaning.
+      rewrite Hst, Hdet, Hdf, Hsafe, Hrdy, Hres. unfold ST_PENDING.
+      apply N.ltb_lt in H1, H2. rewrite H1, H2. cbn. rewrite orb_true_r. reflexivity.
+Qed.
